@@ -32,10 +32,10 @@ static void on_remesh(int kind, int stage, cell*, unsigned, unsigned, unsigned) 
 }
 static void on_division(int, const cell*, const cell*, const cell*) { if (g_cnt) g_cnt->divisions++; }
 static void on_pair(const cell*, const node*, const cell*, const face*) { if (g_cnt) g_cnt->contact_pairs++; }
-static double g_limit = 1e300; static double g_drift[3] = {0, 0, 0};
+static double g_limit = 1e300; static double g_drift[3] = {0, 0, 0}; static bool g_no_guard = false;
 static void on_phase(int tag, const std::vector<cell_ptr>* lst) {
     if (!g_cnt || tag < 0 || tag > 10) return; g_cnt->phases[tag]++;
-    if (tag == 8 && tis::blown_up(*lst, g_limit)) throw tis::unstable_run();
+    if (tag == 8 && !g_no_guard && tis::blown_up(*lst, g_limit)) throw tis::unstable_run();
 #if CONTACT_MODEL_INDEX == 1
     if (tag == 7 && getenv("VH_TRACE")) { std::string o; for (size_t i = 0; i < lst->size(); i++) { long n = 0; unsigned mx = 0; for (const node& nd : cell_tester::nodes(*(*lst)[i])) if (nd.is_used() && cell_tester::coupled(nd).has_value()) { n++; mx = std::max(mx, cell_tester::coupled(nd).value().second); } o += " c" + std::to_string(i) + ":" + std::to_string(n) + "/" + std::to_string(mx) + (( *lst)[i]->is_below_min_vol() ? "*" : ""); } FILE* tf = fopen("/tmp/vh_trace.log", "a"); if (tf) { fprintf(tf, "it %ld%s\n", g_cnt->phases[7], o.c_str()); fclose(tf); } }
 #endif
@@ -49,9 +49,15 @@ static void on_phase(int tag, const std::vector<cell_ptr>* lst) {
 }
 
 static tis::Scenario scenario_of(const Args& a, long i, Rng& g) {
-    int what = a.geti("what", -1); if (what < 0) what = (int)(i % 11);   // 0-6 named families, 7 polygonal cubes (initial triangulation), 8 cubes with a degenerate face in contact
+    int what = a.geti("what", -1); if (what < 0) what = (int)(i % 12);   // 0-6 named families, 7 polygonal cubes (initial triangulation), 8 cubes with a degenerate face in contact
     int iters = (int)a.geti("iterations", 0); if (iters <= 0) iters = g.range((int)a.geti("min_iterations", 40), (int)a.geti("max_iterations", 120));
-    g_drift[0] = g_drift[1] = g_drift[2] = 0;
+    g_drift[0] = g_drift[1] = g_drift[2] = 0; g_no_guard = false;
+    // family 11: a run that becomes unstable and is NOT stopped by the harness: the cells of the first type shrink until their target volume is zero (negative growth,
+    // no minimum volume), the pressure law has no finite value any more and non-finite coordinates spread.  The run may end with any exception; its memory accesses stay judged
+    if (what == 11) { tis::Scenario s = tis::make_scenario(g, std::vector<int>{0, 1, 2, 5}[g.range(0, 3)], iters, false); s.family = "vanishing_cell_unstable_run"; g_no_guard = true;
+        double lo = 1e300, hi = -1e300; for (auto& p : s.cells[0].mesh.P) { lo = std::min(lo, p[0]); hi = std::max(hi, p[0]); } const double V0 = 4.19 * std::pow((hi - lo) / 2, 3);
+        cell_type_parameters& t = s.types[s.cells[0].type_index]; t.min_vol_ = 0; t.std_growth_rate_ = 0; t.avg_growth_rate_ = -V0 * g.uni(2, 8) / (iters * s.P.time_step_); t.avg_division_vol_ = INFINITY; t.std_division_vol_ = 0;
+        s.P.sampling_period_ = s.P.time_step_ * g.range(1, 20); return s; }
     if (what == 10) { tis::Scenario s = tis::make_scenario(g, 1, iters, false); s.family = "drifting_adhering_grid"; const double step = g.uni(0.2, 0.6) * s.P.contact_cutoff_adhesion_; double d[3] = {g.normal(), g.normal(), g.normal()}; const double n = std::sqrt(d[0] * d[0] + d[1] * d[1] + d[2] * d[2]);
         for (int k = 0; k < 3; k++) g_drift[k] = step * d[k] / n; if (g.coin(0.4)) { g_drift[0] = g_drift[1] = 0; g_drift[2] = (g.coin() ? 1 : -1) * step; } return s; }
     return tis::make_scenario(g, what, iters, a.geti("allow_triangulation", 1) != 0);
